@@ -91,6 +91,7 @@ struct Cell
   uint32_t permille = 300, iocap = 0, dist = 0, hsSends = 2;
   int sndbuf = 4096, rcvbuf = 4096, peerRcvbuf = 8192, iochunk = 65536, pauses = 100;
   size_t mwq = 1024;
+  int drain = 0; // peer read pacing (PeerParams::drainMode)
   uint32_t rwmin = 0; // > 0: every reverse write of the peer (one TLS record each up to 16 KiB) is at least this large
   bool cbsend = false; // a callback sender (onData, I/O thread) sends on the same session concurrently with the threads
   uint64_t window = 1u << 20; // sender throttle: accepted-but-not-yet-received bytes
@@ -105,7 +106,7 @@ struct Cell
     o << "{\"tls\":" << tls << ",\"tlsmax\":" << tlsMax << ",\"et\":" << et << ",\"batch\":" << batch << ",\"role\":\"" << (peerIsServer ? "client" : "server")
       << "\",\"threads\":" << threads << ",\"sessions\":" << sessions << ",\"bytes\":" << bytes << ",\"rbytes\":" << rbytes << ",\"permille\":" << permille
       << ",\"iocap\":" << iocap << ",\"dist\":" << dist << ",\"hssends\":" << hsSends << ",\"sndbuf\":" << sndbuf << ",\"rcvbuf\":" << rcvbuf
-      << ",\"peerrcvbuf\":" << peerRcvbuf << ",\"iochunk\":" << iochunk << ",\"pauses\":" << pauses << ",\"mwq\":" << mwq << ",\"cbsend\":" << cbsend << ",\"rwmin\":" << rwmin << ",\"window\":" << window << ",\"fin\":\"" << fin
+      << ",\"peerrcvbuf\":" << peerRcvbuf << ",\"iochunk\":" << iochunk << ",\"pauses\":" << pauses << ",\"mwq\":" << mwq << ",\"cbsend\":" << cbsend << ",\"rwmin\":" << rwmin << ",\"drain\":" << drain << ",\"window\":" << window << ",\"fin\":\"" << fin
       << "\",\"fault\":\"" << fault << "\",\"seed\":" << seed << ",\"cell\":" << cell << "}";
     return o.str();
   }
@@ -135,7 +136,8 @@ uint32_t pickLen(vf::Rng &r, const Cell &c, bool multiSender)
                                  16406, 32767, 32768, 32769, 65535, 65536, 65537, 70000};
   uint32_t len;
   if (c.dist == 1) len = uint32_t(r.chance(0.9) ? r.range(1, 64) : r.range(1, 3000));          // many tiny entries
-  else if (c.dist == 2) len = uint32_t(r.range(8000, 70000));                                   // large
+  else if (c.dist == 2) len = uint32_t(r.range(8000, 70000));
+  else if (c.dist == 3) len = uint32_t(r.range(600, 1500));                                     // flood of ~1 KiB messages                                   // large
   else
   {
     double u = double(r.next() >> 11) / 9007199254740992.0;
@@ -205,7 +207,7 @@ struct Harness
     std::vector<uint8_t> buf;
     bool multi = C.threads > 1 || C.cbsend;
     uint64_t sent = 0;
-    bool throttle = C.fault != "overflow";
+    bool throttle = C.fault.rfind("overflow", 0) != 0; // overflow cells flood until the session closes
     int afterClose = 0;
     while (sent < quota && !s->stopSenders.load() && !abortAll.load())
     {
@@ -558,6 +560,7 @@ int runStream(const Cell &C0)
     else if (C.cbsend) { P.writePauseProb = 0.6; P.maxWriteChunk = 1500; } // many separate onData callbacks, spread over the forward transfer
     if (C.fault == "peer-rst" || C.fault == "peer-fin") { P.abortKind = C.fault == "peer-rst" ? 1 : 2; P.abortAfter = rng.range(1, perSess * 3 / 4 + 1); }
     if (C.fault == "overflow") s.peer.holdReads = true;
+    P.drainMode = C.drain; // overflow-drain: the peer keeps reading at its own pace all the time
     s.peer.cert = H.pki.cert; s.peer.key = H.pki.key;
     int fd = -1;
     if (!C.peerIsServer)
@@ -587,7 +590,7 @@ int runStream(const Cell &C0)
     s->peer.th = std::thread([s] { s->peer.run(); });
     s->sendersRunning = C.threads;
     uint64_t quota = std::max<uint64_t>(1, perSess / uint64_t(C.threads));
-    if (C.fault == "overflow") quota = 64ull << 20;
+    if (C.fault.rfind("overflow", 0) == 0) quota = 64ull << 20;
     for (int t = 0; t < C.threads; t++) s->senderThreads.emplace_back([&H, s, t, quota] { H.senderMain(s, uint32_t(t), quota); });
   }
 
@@ -600,7 +603,8 @@ int runStream(const Cell &C0)
   };
   Snap prev = snap();
   uint64_t lastChange = vf::nowNs();
-  bool stalled = false, watchdog = false, appCloseIssued = false;
+  bool stalled = false, watchdog = false, appCloseIssued = false, noOverflow = false;
+  std::string fin = C.fin;
   uint64_t peakBacklog = 0;
   std::string outcome = "complete";
   uint64_t appCloseAt = C.fault == "app-close" ? rng.range(1, perSess * 3 / 4 + 1) : 0;
@@ -638,7 +642,8 @@ int runStream(const Cell &C0)
         for (auto &s : H.sess) H.tr->close(s->sid.load());
         appCloseIssued = true;
       }
-      if (C.fault == "overflow" && anyClosed()) for (auto &s : H.sess) { s->peer.drain = true; s->peer.holdReads = false; }
+      if (C.fault.rfind("overflow", 0) == 0 && anyClosed()) for (auto &s : H.sess) { s->peer.drain = true; s->peer.holdReads = false; }
+      if (C.fault == "overflow-drain" && !anyClosed() && mainDone()) { outcome = "complete"; fin = "stop"; noOverflow = true; break; } // the peer kept up: nothing overflowed
       if (allClosedAndPeersDone()) { outcome = "closed-early"; break; }
     }
     if (now - lastChange > C.stallMs * 1000000ull)
@@ -715,14 +720,14 @@ int runStream(const Cell &C0)
   bool halfFinal = false;
   if (outcome == "complete")
   {
-    if (C.fin == "half")
+    if (fin == "half")
     {
       halfFinal = true;
       for (auto &s : H.sess) s->peer.cmd = 1;
       bool ok = waitUntil([&] { for (auto &s : H.sess) if (s->closeCount.load() == 0) return false; return true; }, C.stallMs + 20000);
       if (!ok) { R.stall(std::string("C01:stall:close-not-reported:") + C.tr(), "peer half-closed after writing; the session was never reported closed", "\"final\":\"half\""); stalled = true; }
     }
-    else if (C.fin == "app")
+    else if (fin == "app")
     {
       for (auto &s : H.sess) { s->peer.cmd = 2; H.tr->close(s->sid.load()); }
       bool ok = waitUntil([&] { for (auto &s : H.sess) if (s->closeCount.load() == 0) return false; return true; }, C.stallMs + 20000);
@@ -771,6 +776,16 @@ int runStream(const Cell &C0)
                "\"session\":" + std::to_string(s.idx) + ",\"accepted_bytes\":" + std::to_string(s.acceptedBytes.load()) + ",\"peer_bytes\":" + std::to_string(s.peer.rxBytes.load()) +
                  ",\"missing_payloads\":" + std::to_string(fs.missing) + ",\"partial\":" + std::to_string(fs.partial));
     }
+    if (C.fault == "overflow-drain" && outcome == "closed-early")
+    {
+      // the peer never stopped reading and never closed: the only legitimate end is the reported back-pressure close
+      if (s.closeCode.load() == int(TransportError::WriteBackpressure)) { O.obs("overflow_closes_with_draining_peer"); O.obs("bytes_peer_received_before_overflow_close", s.peer.rxBytes.load()); }
+      else
+      {
+        std::string msg; { std::lock_guard<std::mutex> g(s.closeMx); msg = s.closeMsg; }
+        R.viol(std::string("unexpected-close:") + errName(s.closeCode.load()), "overflow cell with a draining, never-closing peer: the session ended with a reason other than the back-pressure close: " + msg, "\"session\":" + std::to_string(s.idx));
+      }
+    }
     if (outcome == "unexpected-close" && closedBeforeStop[i])
     {
       std::string msg; { std::lock_guard<std::mutex> g(s.closeMx); msg = s.closeMsg; }
@@ -807,6 +822,7 @@ int runStream(const Cell &C0)
   O.obs("peer_read_pauses", sum([](Sess &s) { return s.peer.pausesTaken.load(); }));
   O.obsMax("peak_backlog_bytes", peakBacklog);
   if (outcome == "closed-early") O.obs("sessions_closed_early_prefix_checked", H.sess.size());
+  if (noOverflow) O.obs("overflow_drain_cells_where_the_peer_kept_up");
   auto stf = H.tr->getStats();
   O.obs("engine_backpressure_closes", stf.backpressureCloses);
   char sig[256];
@@ -1075,7 +1091,7 @@ int main(int argc, char **argv)
   C.bytes = a.u("bytes", 200000); C.rbytes = a.u("rbytes", 50000);
   C.permille = uint32_t(a.u("permille", 300)); C.iocap = uint32_t(a.u("iocap", 0)); C.dist = uint32_t(a.u("dist", 0)); C.hsSends = uint32_t(a.u("hssends", 2));
   C.sndbuf = int(a.u("sndbuf", 4096)); C.rcvbuf = int(a.u("rcvbuf", 4096)); C.peerRcvbuf = int(a.u("peerrcvbuf", 8192)); C.iochunk = int(a.u("iochunk", 65536));
-  C.cbsend = a.u("cbsend", 0); C.rwmin = uint32_t(a.u("rwmin", 0));
+  C.cbsend = a.u("cbsend", 0); C.rwmin = uint32_t(a.u("rwmin", 0)); C.drain = int(a.u("drain", 0));
   C.pauses = int(a.u("pauses", 100)); C.mwq = size_t(a.u("mwq", 1024)); C.window = a.u("window", 1u << 20);
   C.fin = a.s("fin", "half"); C.fault = a.s("fault", "none");
   C.seed = a.u("seed", 1); C.cell = a.u("cell", 0); C.stallMs = a.u("stallms", 8000); C.watchdogMs = a.u("watchdogms", 240000);
